@@ -150,3 +150,31 @@ def asserts(fn, prefixes=("Overflow", "OverflowNeg", "DivisionByZero", "Remainde
 
 def from_macro(loc_raw, *names):
     return any(m in names for m in loc_raw.get("m", []))
+
+
+def named_consts(fn):
+    """set of named constants / statics mentioned by fn, including inside its promoted bodies"""
+    out = set()
+
+    def scan_op(o):
+        c = o.get("c")
+        if c is not None and "named" in c:
+            out.add(norm_path(c["named"]))
+
+    def scan_blocks(blocks):
+        for b in blocks:
+            for s in b["s"]:
+                if s["k"] == "assign":
+                    rv = s["rv"]
+                    for o in rv_operands(rv):
+                        scan_op(o)
+                    if rv["k"] == "tls":
+                        out.add(norm_path(rv["static"]))
+            t = b["t"]
+            if t["k"] == "call":
+                for a in t["args"]:
+                    scan_op(a)
+    scan_blocks(fn.blocks)
+    for pr in fn.raw.get("promoted", []):
+        scan_blocks(pr["blocks"])
+    return out
